@@ -289,7 +289,7 @@ func checkC03(r *Result) {
 						okShape = false
 					}
 				}
-				okAtom := strings.HasPrefix(atom, "ms(") && strings.Contains(atom, "(time.Time).Sub(param:1:time.Time,param:2:time.Time)")
+				okAtom := atom == "ms(call:(time.Time).Sub(param:1:time.Time,param:2:time.Time))" // the truncating reading of the difference itself, not of a rounded or scaled one
 				okCoef := single && coef.Cmp(big.NewRat(rv, mv)) == 0
 				r.check(okShape && okAtom && okCoef, "LIN-MINT", "(x/mint/types.Minter).CalculateBlockProvision # provision formula", P.Pos(ret.Pos()), fmt.Sprintf("normal form: %s ; expected %d/%d * ms(current - previous)", clip(p.String(), 300), rv, mv))
 			}
